@@ -1158,6 +1158,32 @@ type bnInnerUnexported struct {
 	} `json:"in"`
 }
 
+// a type that refers to itself through a pointer member (a linked list). The rules of such a member are
+// copied into the parent when the type is registered, one or two levels deep depending on the field
+// order; nothing walks the pointer at run time. Deeper nodes are not checked: known finding D152.
+type bnList struct {
+	N    int     `json:"n" vd:"$>0"`
+	Next *bnList `json:"next"`
+}
+
+type bnListLinkFirst struct {
+	Next *bnListLinkFirst `json:"next"`
+	N    int              `json:"n" vd:"$>0"`
+}
+
+func nestList(depth, n int) string {
+	s := fmt.Sprintf(`{"n":%d}`, n)
+	for i := 1; i < depth; i++ {
+		s = fmt.Sprintf(`{"n":1,"next":%s}`, s)
+	}
+	return s
+}
+
+// inD152: the node that breaks the rule sits deeper than the registration-time copy reaches
+func inD152(name string, accepted, want bool) bool {
+	return strings.HasPrefix(name, "linked list") && strings.HasSuffix(name, "(deep)") && accepted && !want
+}
+
 func TestC20BinderNested(t *testing.T) {
 	rec := ev.New("binder-nested")
 	cases := []struct {
@@ -1177,11 +1203,21 @@ func TestC20BinderNested(t *testing.T) {
 		{"recursive []*T, rule before", func(n int) interface{} { return &bnNodeBefore{} }, func(n int) string { return fmt.Sprintf(`{"n":1,"children":[{"n":%d}]}`, n) }},
 		{"recursive map[string]T", func(n int) interface{} { return &bnNodeMap{} }, func(n int) string { return fmt.Sprintf(`{"n":1,"children":{"k":{"n":%d}}}`, n) }},
 		{"mutually recursive pair", func(n int) interface{} { return &bnOrder{} }, func(n int) string { return fmt.Sprintf(`{"items":[{"n":1,"subs":[{"items":[{"n":%d}]}]}]}`, n) }},
+		{"linked list *T, rule first, 2 nodes", func(n int) interface{} { return &bnList{} }, func(n int) string { return nestList(2, n) }},
+		{"linked list *T, rule first, 3 nodes (deep)", func(n int) interface{} { return &bnList{} }, func(n int) string { return nestList(3, n) }},
+		{"linked list *T, rule first, 5 nodes (deep)", func(n int) interface{} { return &bnList{} }, func(n int) string { return nestList(5, n) }},
+		{"linked list *T, link first, 1 node", func(n int) interface{} { return &bnListLinkFirst{} }, func(n int) string { return nestList(1, n) }},
+		{"linked list *T, link first, 2 nodes (deep)", func(n int) interface{} { return &bnListLinkFirst{} }, func(n int) string { return nestList(2, n) }},
+		{"linked list *T, link first, 4 nodes (deep)", func(n int) interface{} { return &bnListLinkFirst{} }, func(n int) string { return nestList(4, n) }},
 		{"embedded non-struct type", func(n int) interface{} { return &bnEmbedInt{} }, func(n int) string { return fmt.Sprintf(`{"n":%d}`, n) }},
 		{"unexported field with a rule", func(n int) interface{} { return &bnUnexported{} }, func(n int) string { return fmt.Sprintf(`{"n":%d}`, n) }},
 		{"unexported field with a rule, in a nested struct", func(n int) interface{} { return &bnInnerUnexported{} }, func(n int) string { return fmt.Sprintf(`{"name":"x","in":{"n":%d}}`, n) }},
 		{"struct as map key", func(n int) interface{} { return &bnKeyMap{ByK: map[bnKey]string{{N: n}: "v"}} }, func(n int) string { return `{"name":"x"}` }},
 	}
+	var knownD152 int64
+	defer func() {
+		rec.Excluded("D152-rule-deeper-than-the-registration-time-copy-of-a-self-referential-pointer-member", knownD152)
+	}()
 	for _, c := range cases {
 		for _, n := range []int{-1, 0, 1, 7} {
 			body := c.body(n)
@@ -1204,6 +1240,10 @@ func TestC20BinderNested(t *testing.T) {
 				t.Errorf("%s", msg)
 			}
 			if want := n > 0; (errV == nil) != want {
+				if inD152(c.name, errV == nil, want) && ev.ReportKnown(prop, "D152") {
+					knownD152++
+					continue
+				}
 				msg := fmt.Sprintf("%s with n=%d: binding.Validate returns %v, the rule $>0 says accepted=%v", c.name, n, errV, want)
 				ev.Fail(prop, "binder-nested", map[string]interface{}{"type": c.name, "n": n}, msg)
 				t.Errorf("%s", msg)
